@@ -113,6 +113,11 @@ def run(ctx):
              "scatter-class stores found in %s" % sorted(set(scatter_fns)))
     colouring(ctx)
     aliasing(ctx)
+    # the dof maps the colouring relies on: zero-multiplier entries of *every* launched element alias one of its own dofs
+    from .. import p1dofs, rwgdofs
+
+    p1dofs.p1_dof_decisions(ctx)
+    rwgdofs.rwg_dof_decisions(ctx)
     singular_after(ctx)
 
 
